@@ -15,6 +15,10 @@ pub struct C03;
 /// a unit-valued block (`{ let x = e  {} }`) used where a value is needed is accepted by the type
 /// checker and crashes code generation or the VM (known finding): the mutation is switched off
 pub const KF_UNIT_VALUE: &str = "C03-unit-value-accepted";
+/// the type checker accepts many ill-typed near-miss programs (a number for a function, a tuple
+/// for a number, arity mismatches, arrays, ...) which then crash code generation or a runtime at
+/// ever new sites: crashes of accepted MUTANTS are attributed to this one finding
+pub const KF_ILLTYPED: &str = "C03-typechecker-accepts-ill-typed-mutants";
 
 pub fn prop() -> Option<&'static dyn Prop> {
     Some(&C03)
@@ -108,6 +112,16 @@ fn finish(src: &str, inputs: &Inputs, n: u64, declared_out: Option<usize>, class
         return r;
     }
     let o = check(src, inputs, n, declared_out);
+    if mutant && !cx.strict && cx.excluded(KF_ILLTYPED) {
+        if let Some((sig, _)) = &o.fail {
+            let crash = sig.contains("panic") || sig.contains("wasm-invalid-module") || sig.contains("wasm-trap") || sig.contains("wasm-error") || sig.contains("vm-error");
+            if crash {
+                let mut r = CaseResult::discard(format!("known-finding:{KF_ILLTYPED}"));
+                r.count(&format!("excluded_by_known_finding:{KF_ILLTYPED}"), 1);
+                return r;
+            }
+        }
+    }
     let mut r = match &o.fail {
         Some((s, m)) => CaseResult::fail(hash, s.clone(), m.clone()),
         None => CaseResult::held(hash),
